@@ -55,8 +55,10 @@ func (f *RemoveMethod) Call(s *slip.Scope, args slip.List, depth int) slip.Objec
 top:
 	switch ta := a0.(type) {
 	case slip.Symbol:
-		a0 = slip.FindFunc(string(ta))
-		goto top
+		if fi := slip.FindFunc(string(ta)); fi != nil {
+			a0 = fi
+			goto top
+		}
 	case *slip.FuncInfo:
 		aux, _ = ta.Aux.(*Aux)
 	}
